@@ -8,4 +8,5 @@ test -x lean/.lake/build/bin/jsight-model
 mkdir -p harness/bin evidence replays
 cp /repo/go.sum harness/go.sum 2>/dev/null || true
 (cd harness && go build -tags verif -o bin/vh ./cmd/vh)
+(cd harness && CGO_ENABLED=1 go build -race -tags verif -o bin/vhrace ./cmd/vhrace)
 echo setup-ok
